@@ -14,8 +14,13 @@ DeepProgs == {pre \o <<op[1]>> \o mid \o <<op[2]>> \o post :
                 op \in {<<[k |-> "scope"], [k |-> "ends"]>>, <<[k |-> "func", n |-> "f"], [k |-> "endf"]>>},
                 mid \in UNION {[1..n -> Inner] : n \in 2..MaxDeep},
                 post \in {<<>>, <<[k |-> "use", n |-> "a"]>>, <<[k |-> "label", n |-> "a"]>>}}
-Init == prog = <<>> \/ (MaxDeep > 0 /\ prog \in DeepProgs)
-Next == Len(prog) < MaxLen /\ (prog = <<>> \/ prog \notin DeepProgs) /\ \E s \in Alphabet : prog' = Append(prog, s)
+\* programs that export two or three symbols, in every order of definitions and exports
+ExpStmts2 == {[k |-> "label", n |-> "a"], [k |-> "label", n |-> "b"], [k |-> "export", n |-> "a"], [k |-> "export", n |-> "b"]}
+ExpStmts3 == ExpStmts2 \cup {[k |-> "label", n |-> "c"], [k |-> "export", n |-> "c"]}
+Perms(S, n) == {p \in [1..n -> S] : \A i, j \in 1..n : i < j => p[i] # p[j]}
+ExportProgs == Perms(ExpStmts2, 4) \cup {p \in Perms(ExpStmts3, 6) : p[1].k = "label"}
+Init == prog = <<>> \/ (MaxDeep > 0 /\ prog \in DeepProgs \cup ExportProgs)
+Next == Len(prog) < MaxLen /\ (prog = <<>> \/ prog \notin DeepProgs \cup ExportProgs) /\ \E s \in Alphabet : prog' = Append(prog, s)
 Spec == Init /\ [][Next]_prog
 Emit == prog = <<>> \/ PrintT("CASE " \o ToJson(prog))
 =============================================================================
